@@ -35,6 +35,7 @@ func init() {
 			rulePatternsEnterThroughTheParser(c, "R11")
 			ruleOnlyTheWholePatternIsJudged(c, "R13")
 			ruleSegmentsAreBuiltFromParsedPieces(c, "R14")
+			ruleAdjacencyIsDecidedOnTheText(c, "R15")
 			ruleIndexedFieldsKeepValidatedText(c, "R12")
 		},
 	})
